@@ -370,7 +370,7 @@ def check():
             else:
                 o.inconc("UNCONFIRMED: lemma(s) fail (%s) but history and fresh oal-lsp servers agree on all %d scripted histories" % ("; ".join(bad[:3]), len(detail)))
         elif mism and not kani_failed:
-            o.inconc("translator validation failed: real oal-lsp history/fresh servers disagree (%s) although every lemma holds" % mism[:2])
+            o.oracle_only("real oal-lsp history/fresh servers disagree (%s) although every lemma holds" % mism[:2], rdir)
         elif mism:
             o.extra["public_api_confirmation"] = mism[:4]
     return o.finish()
